@@ -63,6 +63,10 @@ def correspondence(ctx):
             for wl in (10, 14, 17, 20):
                 for ldm in (0, 1):
                     wear.append((freq, "wear %d %d %d %d %d %d" % (12 if lv < 13 else 4, 3000000 if lv < 13 else 1500000, lv, wl, ldm, ctx.seed * 31 + lv * wl + ldm), "FREQUENT build level %d wlog %d ldm %d" % (lv, wl, ldm)))
+    # caller-owned input ring smaller than the window (buffer-less API), several laps, position-dependent tags (stale-index aliasing lap after lap)
+    for lv, wl in ((1, 20), (2, 19), (3, 20), (5, 20), (7, 20), (10, 21), (13, 20), (16, 20)) if ctx.quick() else [(l, w) for l in range(1, 20) for w in (18, 20, 22)]:
+        ringSize = rng.choice([131072, 262144, 200000]); blk = rng.choice([16384, 32768, 65536, 50000]); rec = rng.choice([32, 64, 100])
+        wear.append((plain, "ring %d %d %d %d %d %d %d" % (lv, wl, ringSize, blk, 5 * (ringSize // blk), rec, ctx.seed * 17 + lv), "caller-owned input ring, level %d windowLog %d" % (lv, wl)))
     def run(item):
         exe, ln, desc = item
         rc, out, err = frames.run_lines(exe, [ln], timeout=3000)
@@ -75,7 +79,22 @@ def correspondence(ctx):
         if not o.startswith("ok"):
             ctx.violation("context wear (%s): %s" % (desc, o), dict(kind="monitor", op=ln, build=desc, result=o))
         else:
-            total += int(o.split("bytes=")[1])
+            total += int(o.split("bytes=")[1].split()[0])
+    # decoder side: the streaming decoder's own ring (window + blocks) wrapped several times, with blocks that park > 64 KiB of literals
+    # in the ring and matches a whole window back; a context of its own per frame so that the ring is exactly as large as this frame needs
+    import synth
+    dexe = frames.harness("plain")
+    rf = [r for r in (synth.frame_ring(rng) for _ in range(16 if ctx.quick() else 300)) if r]
+    dl = []
+    for f, cont in rf:
+        dl.append("decs %d %s %s %s fresh" % (len(cont), frames.hx(f), rng.choice(["100000", "7,4096", "131075"]), rng.choice(["4096", "1000,70000", "100000"])))
+    dres = frames.parallel(lambda ch: frames.run_lines(dexe, ch)[1], frames.split_chunks(dl, 16))
+    dwant = frames.parallel(lambda ch: frames.run_lines(dexe, ch)[1], frames.split_chunks(["xxh " + frames.hx(cont) for f, cont in rf], 16))
+    for ln, a, b in zip(dl, dres, dwant):
+        ev += 1
+        if a.split()[:3] != b.split()[:3]:
+            ctx.violation("streaming decoder whose ring buffer wrapped does not regenerate the content: %s, expected %s" % (a[:100], b), dict(kind="monitor", op=ln[:400000], result=a, expected=b))
+            break
     return dict(evaluations=ev, distinct_nontrivial=len(set(lines)) + len(wear),
                 rule="function level: random and boundary 32-bit states for correctOverflow (cycleLog 0..30, windowLog 10..31, indices up to 2^32-1), reduceTable cells around the reducer threshold and the btlazy2 mark, "
                      "needOverflowCorrection in both builds; end to end: generated frames through one reused context compared with a fresh context and round-tripped, %d wear runs" % len(wear),
